@@ -36,14 +36,20 @@ fn main() {
             for case in start..n {
                 let sc = match &replay {
                     Some(r) => r[case as usize].clone(),
-                    None => { let mut rng = Rng::new(seed.wrapping_mul(1_000_003).wrapping_add(case)); cvh::ctl::gen_scenario(&mut rng, thorough) }
+                    None => {
+                        let mut rng = Rng::new(seed.wrapping_mul(1_000_003).wrapping_add(case));
+                        let mut sc = cvh::ctl::gen_scenario(&mut rng, thorough);
+                        // now and then one long run instead of a scripted scenario (C08 over a long history)
+                        if case % 1500 == 7 { sc.long_evals = 200_000; sc.sample_size = 1 + (case / 1500 % 2) as usize; sc.nc = 1 + (case / 1500 % 3) as usize; sc.rej_permille = 50; sc.guess = None; }
+                        sc
+                    }
                 };
                 let sh = Arc::new(Mutex::new(cvh::ctl::Shared::default()));
                 let (tx, rx) = std::sync::mpsc::channel();
                 let sh2 = sh.clone();
                 let sc2 = sc.clone();
                 std::thread::spawn(move || { let line = cvh::ctl::run_scenario_twin(&sc2, sh2); tx.send(line).ok(); });
-                match rx.recv_timeout(Duration::from_secs(if thorough { 60 } else { 20 })) {
+                match rx.recv_timeout(Duration::from_secs(if sc.long_evals > 0 { 600 } else if thorough { 60 } else { 20 })) {
                     Ok(mut line) => { line["case"] = json!(case); let mut o = out.lock(); writeln!(o, "{}", line).unwrap(); }
                     Err(_) => {
                         // the controller neither returned nor yielded: dump what was observed and give up on this process
